@@ -234,7 +234,7 @@ def make_snap(params, part, nparts):
         ck = pick(k, 3) + 1
         assume(ck < cL)
         cm = pick(m, len(TP.SNAP_MUT))
-        assume((cL * 5 + cm) % nparts == part)
+        assume((cL * len(TP.SNAP_MUT) + cm) % nparts == part)
         prog = [cL, ck, cm, pick(w, 2)]
         reached(tuple(prog), dict(family='snap', program=describe('snap', prog)))
         native(differential, 'snap', prog)
